@@ -186,7 +186,7 @@ pub fn traversal_space(tier: Tier, layouts: Lay) -> DocSpace {
     for (name, d) in seeds::all() {
         s.add("seed", format!("seed:{name}"), d, layouts);
     }
-    let depth = if q { 3 } else { 5 };
+    let depth = if q { 4 } else { 5 };
     let mut types = gen::chain_types(if q { &gen::TYPE_LEAVES[..] } else { &gen::TYPE_LEAVES[..6] }, depth);
     if !q {
         types.extend(gen::chain_types(&gen::TYPE_LEAVES[6..], 4));
